@@ -51,7 +51,30 @@ func Gen(seed uint64, profile string) *Scenario {
 		}
 		st := newGenState(sc)
 		for i := 0; i < n; i++ {
-			sc.Archives = append(sc.Archives, genWellformed(simkit.NewRNG(seed, "uw/arch"+string(rune('0'+i))), st))
+			wipe := i > 0 && r.Chance(1, 3)
+			if wipe {
+				st = newGenState(sc)
+			}
+			ar := genWellformed(simkit.NewRNG(seed, "uw/arch"+string(rune('0'+i))), st)
+			ar.Wipe = wipe
+			sc.Archives = append(sc.Archives, ar)
+		}
+		sc.SharedPacker = r.Chance(1, 3)
+		if n > 1 && r.Chance(1, 3) {
+			// an earlier call that fails half-way (an entry Unpack must refuse) precedes the well-formed ones
+			bad := Archive{Format: "auto", Entries: []Entry{
+				{Name: "a/", Type: "dir", Mode: 0o500, Sec: 981173106},
+				{Name: "b/", Type: "dir", Mode: 0o700, Sec: 981173107},
+				{Name: "a/x", Type: "reg", Mode: 0o600, Sec: 981173108, Body: "OLD;"},
+				{Name: simkit.Pick(r, []string{"pipe", "../escape", "a/hard"}), Type: simkit.Pick(r, []string{"fifo", "reg", "hard"}), Mode: 0o644, Sec: 981173109, Link: "a/x"},
+			}}
+			if bad.Entries[3].Name == "../escape" {
+				bad.Entries[3].Type = "reg"
+			}
+			bad.Wipe = false
+			sc.Archives = append([]Archive{bad}, sc.Archives...)
+			sc.Archives[1].Wipe = true
+			sc.FailFirst = true
 		}
 	case "hostile", "mixed":
 		if r.Chance(1, 12) {
@@ -68,6 +91,16 @@ func Gen(seed uint64, profile string) *Scenario {
 				addReaderFaults(simkit.NewRNG(seed, "uw/fault"+string(rune('0'+i))), &ar)
 			}
 			sc.Archives = append(sc.Archives, ar)
+		}
+		// later calls of the same process: another destination, or the same one emptied by the caller
+		for i := 1; i < len(sc.Archives); i++ {
+			hr := simkit.NewRNG(seed, "uw/seq"+string(rune('0'+i)))
+			switch hr.Intn(4) {
+			case 0:
+				sc.Archives[i].Dst = "/w/deep2/dst"
+			case 1:
+				sc.Archives[i].Wipe = true
+			}
 		}
 		if len(sc.Allow) == 1 && sc.Allow[0] == "../shared" && len(sc.Archives) >= 2 {
 			// one Packer, two destinations: the relative allow-list entry names /w/shared for
